@@ -1,20 +1,64 @@
 (* C12 — lemmas about the proxy model. *)
-From V Require Import Base.Common Base.C11_Http Gen.ProxyRoutes Model.C12_Proxy Model.C12_Check.
+From V Require Import Base.Common Base.C11_Http Base.C11_RouteOrder Gen.ProxyRoutes Model.C12_Proxy Model.C12_Check Model.C12_Tables
+  Proofs.RouteOrder.
 Open Scope string_scope.
 Open Scope list_scope.
 
 (* ------------------------------------------------------------------------------------------ *)
 (* the generated routing table against the hand-written one                                   *)
 (* ------------------------------------------------------------------------------------------ *)
-Definition lit (l : list string) : list tseg := map TLit l.
+(* lit, expand: Model/C12_Tables.v *)
 
-(* each listed path contributes its /{arg} form (when it has one) and then its exact form *)
-Definition expand (tbl : list (list string * handler * bool)) : list croute :=
-  flat_map (fun r : list string * handler * bool => let '(base, h, sl) := r in
-    (if sl then [(lit ("" :: base) ++ [TVar "arg"], h, true)] else []) ++ [(lit ("" :: base), h, false)]) tbl.
-
-Lemma table_compiles : compile_routes hijack_prefix hijack_routes = expand spec_paths.
+(* proxy_table_spec, part 1: the generated table is the expansion of the hand-written spec_paths up to the order of
+   routes that are apart (no path matches both templates); part 2 below: both classify every path alike *)
+Lemma table_compiles : croutes_equiv (compile_routes hijack_prefix hijack_routes) (expand spec_paths) = true.
 Proof. vm_compute. reflexivity. Qed.
+
+Lemma handler_eqb_eq a b : handler_eqb a b = true -> a = b.
+Proof. destruct a, b; intros H; try reflexivity; discriminate H. Qed.
+
+Lemma croute_eqb_eq a b : croute_eqb a b = true -> a = b.
+Proof.
+  destruct a as [[t h] sl], b as [[t' h'] sl']. cbn [croute_eqb]. intros H.
+  apply andb_prop in H as [H H3]. apply andb_prop in H as [H1 H2].
+  apply (ro_list_eqb_eq tseg_eqb ro_tseg_eqb_eq) in H1. apply handler_eqb_eq in H2. apply Bool.eqb_prop in H3. subst. reflexivity.
+Qed.
+
+(* one route: what it answers, given what the rest of the table would answer *)
+Definition cstep (segs : list string) (x : croute) (k : unit -> class) (u : unit) : class :=
+  let '(t, h, sl) := x in
+  match match_segs t segs with
+  | Some vars => Hijack h (if sl then Some (match sget "arg" vars with Some a => a | None => "" end) else None)
+  | None => k u
+  end.
+
+Lemma first_match_run segs rs : first_match rs segs = fm_run (cstep segs) (fun _ => Relay) rs tt.
+Proof.
+  induction rs as [|[[t h] sl] rs IH]; [reflexivity|]. cbn [first_match fm_run cstep].
+  destruct (match_segs t segs); [reflexivity | exact IH].
+Qed.
+
+Lemma cstep_ext segs x k k' : (forall s, k s = k' s) -> forall s, cstep segs x k s = cstep segs x k' s.
+Proof. intros H s. destruct x as [[t h] sl]. cbn [cstep]. destruct (match_segs t segs); [reflexivity | apply H]. Qed.
+
+Lemma cstep_swap segs x y : croute_apart x y = true ->
+  forall k s, cstep segs x (cstep segs y k) s = cstep segs y (cstep segs x k) s.
+Proof.
+  destruct x as [[t1 h1] sl1], y as [[t2 h2] sl2]. unfold croute_apart. cbn [fst]. intros H k s. cbn [cstep].
+  destruct (match_segs t1 segs) eqn:M1; [|reflexivity].
+  assert (Hn : match_segs t1 segs <> None) by (rewrite M1; discriminate).
+  rewrite (tpl_disjoint_sound t1 t2 H segs Hn). reflexivity.
+Qed.
+
+(* the transfer lemma (any table sizes): equivalent tables classify every path alike *)
+Lemma croutes_equiv_first_match rs1 rs2 : croutes_equiv rs1 rs2 = true -> forall segs, first_match rs1 segs = first_match rs2 segs.
+Proof.
+  intros H segs. rewrite !first_match_run.
+  apply (trace_equiv_run croute_eqb croute_apart (cstep segs) (fun _ => Relay) croute_eqb_eq (cstep_ext segs) (cstep_swap segs) rs1 rs2 H).
+Qed.
+
+Lemma table_first_match segs : first_match (compile_routes hijack_prefix hijack_routes) segs = first_match (expand spec_paths) segs.
+Proof. apply croutes_equiv_first_match. exact table_compiles. Qed.
 
 Lemma methods_are : hijack_methods = spec_methods.
 Proof. reflexivity. Qed.
@@ -93,7 +137,7 @@ Qed.
 Lemma classify_is_spec m p : classify m p = spec_class m p.
 Proof.
   unfold classify, classify_with, spec_class.
-  rewrite table_compiles, methods_are, first_match_expand. reflexivity.
+  rewrite table_first_match, methods_are, first_match_expand. reflexivity.
 Qed.
 
 (* strip_prefix characterised *)
